@@ -154,8 +154,8 @@ def _case_table(rows):
     for conds, _ in rows:
         for t, pol in conds:
             if t.startswith("ALL["):
-                universe |= {m for m, _ in _members(t) if not _is_int_atom(m)}
-            elif not _is_int_atom(t):
+                universe |= {m for m, _ in _members(t)}
+            else:
                 universe.add(t)
     universe = sorted(universe)
     if len(universe) > 10:
@@ -169,15 +169,10 @@ def _case_table(rows):
             for t, pol in conds:
                 if t.startswith("ALL["):
                     mem = _members(t)
-                    if any(_is_int_atom(m) for m, _ in mem):
-                        ints.append((t, pol))
-                        continue
                     allv = all(asg[m] == want for m, want in mem)
                     if allv != pol:
                         ok = False
                         break
-                elif _is_int_atom(t):
-                    ints.append((t, pol))
                 elif asg[t] != pol:
                     ok = False
                     break
@@ -269,9 +264,15 @@ def _defaults(fn) -> dict:
     return out
 
 
-def reference_paths(source: str, params=None):
+def reference_paths(source: str, params=None, like=None, repo=None):
+    """Paths of a reference model; with `like` (the implementation's FuncInfo) its calls are put into the same positional
+    spelling as the parsed repository (sa.callnorm), in the implementation's class/module context."""
     fn = ast.parse(source.strip("\n")).body[0]
-    return summary.summarise(fn, params)
+    if like is not None and repo is not None:
+        from .. import callnorm
+
+        callnorm.canonicalise(repo, ("function", fn, like.module, like.cls))
+    return summary.summarise(fn, params, module_literals(repo, like, fn) if like is not None and repo is not None else None)
 
 
 def agree(ctx, rule, finfo, reference: str, what: dict, params=None, keep=(), key_prefix="", only_cases=None, ignore=()):
@@ -284,7 +285,7 @@ def agree(ctx, rule, finfo, reference: str, what: dict, params=None, keep=(), ke
     IGNORE[:] = list(ignore)
     try:
         found = signature(paths_of(ctx, finfo, params, keep))
-        want = signature(reference_paths(reference, params))
+        want = signature(reference_paths(reference, params, like=finfo, repo=ctx.repo))
     finally:
         IGNORE[:] = []
     ctx.touch(finfo)
